@@ -40,6 +40,11 @@ def child_env(hashseed: str) -> dict:
         "TLSIM_REPO_SRC": os.environ.get("TLSIM_REPO_SRC", "/repo/src"),
         "PYTHONWARNINGS": "ignore",
     }
+    if str(hashseed) != "0":
+        # the other templates are processes whose locale is the bare C locale with UTF-8 mode off: the
+        # interpreter's preferred and file-system encodings are ASCII there (the library's text encoding is
+        # UTF-8 by contract, whatever the process locale says)
+        env.update({"LANG": "C", "LC_ALL": "C", "PYTHONUTF8": "0", "PYTHONCOERCECLOCALE": "0"})
     if os.path.exists(SHIM):
         env["LD_PRELOAD"] = SHIM
     return env
